@@ -22,3 +22,18 @@ package pathutil
 //gvc:  loop 4 step skipped: spec_hfs_ignored(runes[i - 1])
 //gvc:  ensures _table: forall(r, 0, 1114112, has(hfsIgnoredCodepoints, r) == spec_hfs_ignored(r))
 //gvc:end
+
+// ValidTreePath (C04: trees go-git writes pass git fsck; C26: .git and its
+// disguises are refused at any depth). A path is accepted only after every
+// one of its components has been put to all three matchers -- the literal
+// .git name, its HFS+ spellings (ignorable code points anywhere, also in
+// front), its NTFS spellings -- and each of them said no. There is no
+// shortcut by first byte or length past the matchers.
+//gvc:func ValidTreePath
+//gvc:  props C04 C26
+//gvc:  theory int
+//gvc:  opt coarse
+//gvc:  opt frame args
+//gvc:  loop 2 invariant tested: calls("IsDotGitName") == it2 && calls("IsHFSDotGit") == it2 && calls("IsNTFSDotGit") == it2
+//gvc:  ensures all: result == nil ==> calls("IsDotGitName") == len(now(parts)) && calls("IsHFSDotGit") == len(now(parts)) && calls("IsNTFSDotGit") == len(now(parts)) && len(now(parts)) >= 1
+//gvc:end
